@@ -102,7 +102,11 @@ func genFMA(t *rapid.T, specials bool) C03Case {
 		prod := model.MulX(xv, yv).Val
 		c.X, c.Y = mk(xv, "x"), mk(yv, "y")
 		c.P = uint(rapid.IntRange(1, 60).Draw(t, "re.p"))
-		switch rapid.IntRange(0, 5).Draw(t, "re.u") {
+		ukind := rapid.IntRange(0, 5).Draw(t, "re.u")
+		if !specials && ukind < 3 {
+			ukind += 3
+		}
+		switch ukind {
 		case 0, 1:
 			c.U = h.GenSpecial(t, "u", "z")
 			if rapid.Bool().Draw(t, "re.uopp") {
